@@ -94,7 +94,6 @@ Definition outcome_ok (o : outcome) (obs : pobs) : bool :=
   match o, obs with
   | PValue v, OValue w => val_sim v w
   | PSyntax t, OSyntax ty line pos => ttype_eqb (ttype_of t) ty && (tline t =? line) && (tpos t =? pos)
-  | PRuntime RCollator, OPanic 1 => true
   | PRuntime RPushOverflow, OPanic 2 => true
   | PRuntime RStarved, OHang => true
   | _, _ => false
